@@ -818,6 +818,73 @@ func clientSilentServer(rep *hx.Report) {
 	}
 }
 
+// C08 at engine level: once the parser has returned an error nothing further is reported - the connection is closed and
+// bytes that follow the malformed ones are never handled, in every IOMod, plain and TLS (each read loop has its own
+// handling of the parser's error). The request after the malformed bytes is sent in a separate write (a separate TLS record).
+func parseErrorCloses(rep *hx.Report) {
+	var handled sync.Map
+	h := http.HandlerFunc(func(w http.ResponseWriter, req *http.Request) {
+		handled.Store(req.URL.Path, true)
+		w.Write([]byte("ok"))
+	})
+	malformed := []struct{ name, bytes string }{
+		{"control-byte-as-header-name", "GET /bad HTTP/1.1\r\nHost: x\r\n\x01"},
+		{"bad-content-length", "POST /bad HTTP/1.1\r\nHost: x\r\nContent-Length: x1\r\n\r\n"},
+		{"bad-chunk-size", "POST /bad HTTP/1.1\r\nHost: x\r\nTransfer-Encoding: chunked\r\n\r\nzz\r\n"},
+	}
+	for _, iomod := range []int{nbhttp.IOModNonBlocking, nbhttp.IOModBlocking, nbhttp.IOModMixed} {
+		addr, addrTLS := freePort(), freePort()
+		e := nbhttp.NewEngine(nbhttp.Config{Network: "tcp", Addrs: []string{addr}, AddrsTLS: []string{addrTLS}, TLSConfig: serverTLS,
+			IOMod: iomod, MaxBlockingOnline: 2, NPoller: 2, Handler: h})
+		if err := e.Start(); err != nil {
+			rep.Stat("c08.start-failed")
+			continue
+		}
+		for k := 0; k < 12; k++ { // in mixed mode the first connections are served by blocking readers, the later ones by the pollers
+			tr, a := transport{}, addr
+			if k%2 == 1 {
+				tr, a = transport{TLS: true, Ver: []string{"1.2", "1.3"}[k/2%2]}, addrTLS
+			}
+			m := malformed[k%len(malformed)]
+			id := fmt.Sprintf("%d-%s-%d", iomod, tr, k)
+			conn, _, _ := tr.dial(a, 0)
+			if conn == nil {
+				continue
+			}
+			conn.Write([]byte("GET /first-" + id + " HTTP/1.1\r\nHost: x\r\n\r\n"))
+			conn.SetReadDeadline(time.Now().Add(5 * time.Second))
+			br := bufio.NewReader(conn)
+			if resp, err := http.ReadResponse(br, &http.Request{Method: "GET"}); err == nil {
+				io.ReadAll(resp.Body)
+			}
+			conn.Write([]byte(m.bytes))
+			time.Sleep(20 * time.Millisecond)
+			conn.Write([]byte("\r\n\r\n"))
+			time.Sleep(10 * time.Millisecond)
+			conn.Write([]byte("GET /after-error-" + id + " HTTP/1.1\r\nHost: x\r\n\r\n"))
+			// the server must close; nothing that looks like an answer to the request behind the error may arrive
+			conn.SetReadDeadline(time.Now().Add(4 * time.Second))
+			rest, rerr := io.ReadAll(br)
+			conn.Close()
+			rep.Case("c08/parse-error-closes/"+id+"/"+m.name, true)
+			rep.Ops += 3
+			rep.Stat(fmt.Sprintf("c08.parse-error.iomod%d.%s", iomod, tr))
+			replay := map[string]interface{}{"harness": "httpe2e", "part": "c08", "iomod": iomod, "transport": tr, "connection": k, "malformed": m.name,
+				"sent": []string{"GET /first-" + id, m.bytes, "\r\n\r\n", "GET /after-error-" + id}}
+			_, after := handled.Load("/after-error-" + id)
+			switch {
+			case after:
+				rep.Add(hx.Finding{Kind: "oracle", Property: "C08", Signature: fmt.Sprintf("request-handled-after-parse-error-iomod%d-%s", iomod, map[bool]string{true: "tls", false: "plain"}[tr.TLS]),
+					What: fmt.Sprintf("[iomod %d, %s] the request sent behind malformed bytes (%s) reached the handler: the parser went on after it had returned an error", iomod, tr, m.name), Replay: replay})
+			case rerr != nil && strings.Contains(rerr.Error(), "timeout"):
+				rep.Add(hx.Finding{Kind: "oracle", Property: "C08", Signature: fmt.Sprintf("connection-open-after-parse-error-iomod%d-%s", iomod, map[bool]string{true: "tls", false: "plain"}[tr.TLS]),
+					What: fmt.Sprintf("[iomod %d, %s] the connection is still open 4s after malformed bytes (%s); received meanwhile: %q", iomod, tr, m.name, trunc(rest, 80)), Replay: replay})
+			}
+		}
+		e.Stop()
+	}
+}
+
 // the recorded finding D16: Connection: close + response larger than the socket buffers + slow reader
 // (the same mechanism over TLS keeps the same signature)
 func closeTruncation(rep *hx.Report, t transport) {
@@ -859,11 +926,18 @@ func main() {
 	_ = flag.String("model", "", "")
 	out := flag.String("out", "-", "")
 	full := flag.Bool("full", false, "full matrix (9 cells) per round instead of 3 rotating cells")
+	part := flag.String("part", "", "c08: only the engine-level part of property C08 (a parse error ends the connection)")
 	only := flag.Int("cell", -1, "run only this cell (0..8 = iomod*3+epoll mode), every round")
 	flag.Parse()
 	logging.SetLogger(quiet{})
 	initTLS()
 	rep := hx.NewReport("httpe2e", *seed)
+	if *part == "c08" {
+		rep.Rule = "engine level: per IOMod x {plain, TLS 1.2, TLS 1.3} x kind of malformed input: an answered request, malformed bytes, then a well-formed request in a separate write; the request behind the error must never reach the handler and the server must close the connection"
+		parseErrorCloses(rep)
+		rep.Write(*out)
+		return
+	}
 	rep.Rule = "per matrix cell (IOMod x epoll mode; one engine with a plain and a TLS listener, IOModMixed with MaxBlockingOnline 6): up to 24 plain plus up to 24 TLS (crypto/tls 1.2 or 1.3, a third with records cut into random TCP writes) concurrent raw connections, each pipelining 1-5 requests (GET/POST with bodies up to 70000 bytes, response sizes 0..200000 around 64 KiB, Content-Length / multi-write / single-write framing, last request keep-alive or close by version / Connection header), written in one piece or random segments, plus 4 net/http and 4 net/http-over-TLS clients, after peers that abort exchanges / handshakes on both listeners; nbhttp.Client batches of 4-15 requests over http and, per server IOMod, over https (TLS 1.2; also the client's default once the TLS 1.3 probe succeeds); the D16 case over plain and TLS; non-trivial = connection with more than one request; distinct = distinct (cell, transport, request list)"
 	r := rand.New(rand.NewSource(*seed))
 	iomods := []int{nbhttp.IOModNonBlocking, nbhttp.IOModBlocking, nbhttp.IOModMixed}
